@@ -35,7 +35,8 @@ fn in_domain(h: &[Call]) -> bool {
         sumapi::well_typed(c)
             && match c {
                 Call::Set(_, Val::S(s)) | Call::Push(_, s) => !s.contains(['\r', '\n']),
-                Call::Set(_, Val::L(l)) => !l.is_empty() && l.iter().all(|s| !s.contains(['\r', '\n'])),
+                // (a list may be emptied in between; only the final values must be non-empty)
+                Call::Set(_, Val::L(l)) => l.iter().all(|s| !s.contains(['\r', '\n'])),
                 _ => true,
             }
     })
@@ -47,7 +48,7 @@ pub fn check(c: &Case, obs: &mut Obs) -> Result<(), String> {
         return Ok(());
     }
     let a = m::apply(&c.h1);
-    if m::apply(&c.h2) != a || m::required().iter().any(|i| !a.contains_key(i)) {
+    if m::apply(&c.h2) != a || m::required().iter().any(|i| !a.contains_key(i)) || a.values().any(|v| matches!(v, Val::L(l) if l.is_empty())) {
         // the two histories must realise the same complete assignment
         obs.excluded = true;
         return Ok(());
